@@ -7,9 +7,10 @@ import os, sys, json, random, time
 sys.path.insert(0, os.path.dirname(os.path.abspath(__file__)))
 import vlib, refs, pairs
 
+_UH = {}
 SIZES = {  # (quick, thorough) number of pairs per stratum
     "uniform": (120, 2500), "threshold": (260, 6000), "grey": (80, 3000), "named": (60, 2000),
-    "nearbg": (80, 2000), "hair": (60, 1200), "witness": (900, 20000), "spell": (130, 3000), "isolum": (150, 3000), "hairline": (70, 1500), "corner": (120, 2500), "zeroone": (40, 400), "edge": (120, 2500),
+    "nearbg": (80, 2000), "hair": (60, 1200), "witness": (900, 20000), "witness_neargrey": (900, 20000), "witness_translucent": (900, 20000), "spell": (130, 3000), "isolum": (150, 3000), "hairline": (70, 1500), "corner": (120, 2500), "zeroone": (40, 400), "edge": (120, 2500), "ultrahair": (90, 1500), "neargrey": (90, 1500), "informal": (60, 1000),
 }
 
 
@@ -29,11 +30,11 @@ def strata(pid, t, rnd):
     def spelled(c, kind):
         return pairs.spell(c, kind, rnd)
 
-    w = {"C01": dict(uniform=1, threshold=1, grey=1, named=1, nearbg=.5, hair=.5, spell=1, isolum=.3, hairline=1, corner=.5, zeroone=1, edge=.5),
-         "C02": dict(uniform=.7, threshold=1, grey=.7, named=.5, nearbg=.7, hair=1.5, spell=.6, isolum=4, hairline=1, corner=3, zeroone=1),
+    w = {"C01": dict(uniform=1, threshold=1, grey=1, named=1, nearbg=.5, hair=.5, spell=1, isolum=.3, hairline=1, corner=.5, zeroone=1, edge=.5, ultrahair=1, neargrey=.5, informal=.5),
+         "C02": dict(uniform=.7, threshold=1, grey=.7, named=.5, nearbg=.7, hair=1.5, spell=.6, isolum=4, hairline=1, corner=3, zeroone=1, ultrahair=.5, neargrey=1.5, informal=1.5),
          "C16": dict(uniform=.5, threshold=1.2, grey=.5, named=.3, nearbg=2.0, hair=.3, spell=.2, isolum=.5, edge=2, corner=.3),
          "C04": dict(uniform=1, threshold=1, grey=.5, named=.3, nearbg=1.5, hair=.2, spell=.3, isolum=.5),
-         "C03": dict(witness=1)}[pid]
+         "C03": dict(witness=1, witness_neargrey=.25, witness_translucent=.2)}[pid]
     for name, scale in w.items():
         n = n_of(name, t, scale)
         for k in range(n):
@@ -74,6 +75,59 @@ def strata(pid, t, rnd):
                 add(a, b, large, runs=[(0, False), (0, True), (1, False), (2, True)] if k % 3 else None)
                 if specs[-1].get("runs") is None:
                     del specs[-1]["runs"]
+            elif name == "ultrahair":
+                # the darker colour has channels in the knee region of the sRGB curve (0..20); the partner is solved so that the
+                # ratio sits within 1e-3 of the requirement
+                tq = rnd.choice(REQS)
+                v = rnd.randrange(0, 21)
+                dark = rnd.choice([(v, v, v), (v, rnd.randrange(21), rnd.randrange(21)), (rnd.randrange(21), v, rnd.randrange(12))])
+                key = (dark, tq)
+                if key not in _UH:
+                    _UH[key] = pairs.ultra_hairline(rnd, dark, tq)
+                if _UH[key]:
+                    c, _r = rnd.choice(_UH[key])
+                    if k & 1:
+                        add(c, dark, large)
+                    else:
+                        add(dark, c, large)
+                else:
+                    a, b = pairs.hairline(rnd, tq)
+                    add(a, b, large)
+            elif name == "neargrey":
+                # faintly tinted greys, spelled as an hsl() string that denotes exactly that colour; readable and not
+                c = pairs.neargrey(rnd)
+                bgc = rnd.choice([(255, 255, 255), (0, 0, 0), pairs.rand_colour(rnd)])
+                txt = pairs.hsl_exact_text(c) if k % 3 else None
+                add(txt or c, bgc, large, "hslfn" if txt else "tuple")
+            elif name == "informal":
+                # four-number spellings the parser reads as translucent: rgb(r g b / a), rgb(r, g, b, a), "r, g, b, a", "(r, g, b, a)"
+                tq = rnd.choice(REQS)
+                c, bgc = pairs.near_threshold(rnd, tq, (-0.3, 0.3))
+                txt = pairs.translucent_over(c, bgc, rnd)
+                add(txt if txt is not None else c, bgc, large, "rgbafn" if isinstance(txt, str) else "rgbatuple" if txt is not None else "tuple")
+            elif name in ("witness_neargrey", "witness_translucent"):
+                vr = bool(rnd.getrandbits(1))
+                tq = pairs.REQ[(large, vr)]
+                for _try in range(60):
+                    if name == "witness_neargrey":
+                        c = pairs.neargrey(rnd)
+                        # a background against which this near-grey sits 0-6 % below the requirement
+                        lt = refs.wcag_lum(c)
+                        want = tq * rnd.uniform(0.94, 1.0)
+                        lb = (lt + 0.05) / want - 0.05 if lt > 0.2 else want * (lt + 0.05) - 0.05
+                        if not 0 <= lb <= 1:
+                            continue
+                        g = min(range(256), key=lambda v: abs(refs._LIN[v] - lb))
+                        bgc = (g, g, g)
+                        if tq * 0.93 <= refs.wcag_ratio(c, bgc) < tq:
+                            add(c, bgc, large, witness=True, runs=[(m, v2) for v2 in (True, False) for m in (0, 1, 2)])
+                            break
+                    else:
+                        c, bgc = pairs.near_threshold(rnd, tq, (0.0, 0.07))
+                        txt = pairs.translucent_over(c, bgc, rnd)
+                        if txt is not None and bgc != (255, 255, 255):
+                            add(txt, bgc, large, "rgbafn", witness=True, runs=[(m, v2) for v2 in (True, False) for m in (0, 1, 2)])
+                            break
             elif name == "edge":
                 a, b = pairs.edge_near_threshold(rnd, rnd.choice(REQS))
                 add(a, b, large)
